@@ -130,7 +130,7 @@ Reset ==
   /\ msgQ' = <<>> /\ netIn' = <<>> /\ netEnd' = "open" /\ wrm' = "accept"
   /\ ph' = "run" /\ inCtx' = "no" /\ retd' = <<>>
   /\ ops' = <<>> /\ sts' = <<>> /\ nh' = 1 /\ discW' = FALSE
-  /\ g' = [ids |-> {}, sids |-> {}, nsub |-> 0]
+  /\ g' = [ids |-> {}, sids |-> {}, nsub |-> 0, szrej |-> 0, ncancel |-> 0]
   /\ resumeQ' = <<>> /\ supp' = {} /\ secsAgo' = <<>> /\ blockedOn' = <<>>
 
 End ==
@@ -190,7 +190,8 @@ Drop ==
             /\ ops' = CancelWaiting(ops)
             /\ sts' = [k \in DOMAIN sts |-> [sts[k] EXCEPT !.tx = FALSE]]
             /\ UNCHANGED nh
-  /\ UNCHANGED <<mode, verdict, cfg, S, netIn, netEnd, wrm, inCtx, retd, discW, g, resumeQ, supp, secsAgo, blockedOn>>
+  /\ g' = IF Ln.task \in {"op", "st"} THEN [g EXCEPT !.ncancel = @ + 1] ELSE g
+  /\ UNCHANGED <<mode, verdict, cfg, S, netIn, netEnd, wrm, inCtx, retd, discW, resumeQ, supp, secsAgo, blockedOn>>
 
 \* ------------------------------------------------------------------------------------------
 \* caller-side polls
@@ -262,7 +263,10 @@ ApplyOut(out, freed, newids, newsids) ==
   /\ ops' = ApplyComp(ops, out.comp)
   /\ retd' = out.ret
   /\ supp' = supp \cup {out.supp[i] : i \in 1..Len(out.supp)}
-  /\ g' = [g EXCEPT !.ids = (@ \ freed) \cup newids, !.sids = @ \cup newsids]
+  /\ g' = [g EXCEPT !.ids = (@ \ freed) \cup newids, !.sids = @ \cup newsids,
+                     !.szrej = IF \E i \in 1..Len(out.comp) : out.comp[i].slot.k = "res" /\ out.comp[i].slot.res.kind = "MaximumPacketSizeExceeded"
+                                     /\ out.comp[i].op \in DOMAIN ops /\ ops[out.comp[i].op].kind = "pub" /\ ops[out.comp[i].op].qos > 0
+                               THEN @ + 1 ELSE @]
 
 TakeResume ==                                                                  \* C17
   /\ Stepping /\ resumeQ # <<>> /\ CanWrite
@@ -511,6 +515,8 @@ NextPollOf(k, i) ==       \* the next result reported for operation k at or afte
   ELSE NextPollOf(k, i + 1)
 
 V(prop, clause, detail) == <<prop, clause, l, detail>>
+\* a divergence in what another caller gets, after some future or stream was dropped, is also C15's business
+WithC15(p) == IF g.ncancel > 0 THEN <<p, "C15">> ELSE p
 
 \* look-ahead (classification only): is the next poll of the context task one without a wake-up that nevertheless
 \* makes progress (writes something)?  Then the stall at this point was a lost wake-up, not a missing reaction.
@@ -593,15 +599,17 @@ ClassifyPollOp ==
     ELSE IF SameRes(want, got) /\ Ln.woken = 0 THEN V("C16", "progress-without-wakeup", <<"op", Ln.k>>)
     ELSE IF want.r = "pending" THEN
         (IF got.kind = "ContextExited" THEN V("C14", "context-exited-while-alive", Ln.k)
-         ELSE V("C05", "completed-without-own-ack", <<ops[Ln.k].kind, got.r, got.kind>>))
+         ELSE V(WithC15("C05"), "completed-without-own-ack", <<ops[Ln.k].kind, got.r, got.kind>>))
     ELSE IF got.r = "pending" THEN
         (IF want.kind = "ContextExited" THEN V("C14", "hangs-after-context-gone", <<ops[Ln.k].kind, ops[Ln.k].st>>)
-         ELSE V("C05", "completion-withheld", <<ops[Ln.k].kind, want.r, want.kind>>))
+         ELSE V(WithC15("C05"), "completion-withheld", <<ops[Ln.k].kind, want.r, want.kind>>))
     ELSE IF want.kind = "ContextExited" \/ got.kind = "ContextExited" THEN V("C14", "wrong-result-after-exit", <<want.kind, got.kind>>)
+    ELSE IF want.kind = "MaximumPacketSizeExceeded" THEN V("C12", "size-result", <<want.kind, got.kind>>)    \* the size rule comes first
+    ELSE IF got.kind = "QuotaExceeded" /\ g.szrej > 0 THEN V(<<"C12", "C10">>, "refused-request-left-quota-behind", <<want.kind, got.kind, g.szrej>>)
     ELSE IF want.kind = "QuotaExceeded" \/ got.kind = "QuotaExceeded" THEN V("C10", "quota-result", <<want.kind, got.kind>>)
-    ELSE IF want.kind = "MaximumPacketSizeExceeded" \/ got.kind = "MaximumPacketSizeExceeded" THEN V("C12", "size-result", <<want.kind, got.kind>>)
+    ELSE IF got.kind = "MaximumPacketSizeExceeded" THEN V("C12", "size-result", <<want.kind, got.kind>>)
     ELSE IF ops[Ln.k].kind = "pub" THEN V("C06", "outcome", <<want.r, want.kind, want.rc, got.r, got.kind, got.rc>>)
-    ELSE V("C05", "ack-content", <<want.x, got.x>>)
+    ELSE V(WithC15("C05"), "ack-content", <<want.x, got.x>>)
 
 ClassifyPollSt ==
   IF Ln.k \notin DOMAIN sts THEN V("C07", "unknown-stream", Ln.k)
@@ -612,16 +620,16 @@ ClassifyPollSt ==
     ELSE IF got.r = "item" /\ got.pk.qos = 2 /\ got.pk.x \in supp /\ got.pk.x \in s.seen2
          THEN V("C09", "redelivered", <<got.pk.tag>>)        \* this stream has yielded that very message before
     ELSE IF want = "end" /\ got.r = "pending" THEN V("C14", "stream-hangs-after-context-gone", Ln.k)
-    ELSE IF want = "pending" /\ got.r = "end" THEN V("C07", "ended-early", Ln.k)
-    ELSE IF want = "item" /\ got.r = "item" THEN V("C07", "wrong-item", <<Head(s.buf).tag, got.pk.tag, Head(s.buf).x, got.pk.x>>)
-    ELSE IF want = "item" THEN V("C07", "item-missing", <<Head(s.buf).tag, got.r>>)
-    ELSE V("C07", "extra-item", <<got.pk.tag, got.pk.qos>>)
+    ELSE IF want = "pending" /\ got.r = "end" THEN V(WithC15("C07"), "ended-early", Ln.k)
+    ELSE IF want = "item" /\ got.r = "item" THEN V(WithC15("C07"), "wrong-item", <<Head(s.buf).tag, got.pk.tag, Head(s.buf).x, got.pk.x>>)
+    ELSE IF want = "item" THEN V(WithC15("C07"), "item-missing", <<Head(s.buf).tag, got.r>>)
+    ELSE V(WithC15("C07"), "extra-item", <<got.pk.tag, got.pk.qos>>)
 
 ClassifyQuiescent ==
   IF \E k \in DOMAIN ops : ops[k].st # "built" /\ ops[k].slot # <<>>
-  THEN (IF ph = "gone" THEN V("C14", "operation-not-woken", <<>>) ELSE V("C05", "completion-not-delivered", <<>>))
+  THEN (IF ph = "gone" THEN V("C14", "operation-not-woken", <<>>) ELSE V(WithC15("C05"), "completion-not-delivered", <<>>))
   ELSE IF \E k \in DOMAIN sts : sts[k].pollable /\ (sts[k].buf # <<>> \/ ~sts[k].tx)
-  THEN (IF ph = "gone" THEN V("C14", "stream-not-woken", <<>>) ELSE V("C07", "item-not-delivered", <<>>))
+  THEN (IF ph = "gone" THEN V("C14", "stream-not-woken", <<>>) ELSE V(WithC15("C07"), "item-not-delivered", <<>>))
   ELSE IF retd # <<>> THEN V("C13", "no-return", retd[1].kind)
   ELSE IF netIn = <<>> /\ msgQ = <<>> /\ Ln.unread > 0 THEN V("C03", "unread-input", Ln.unread)
   ELSE ExpectedWriteMissing
@@ -658,7 +666,7 @@ Init ==
   /\ cfg = [run |-> 0, fam |-> "", recon |-> 0]
   /\ S = InitS(1, 0) /\ msgQ = <<>> /\ netIn = <<>> /\ netEnd = "open" /\ wrm = "accept"
   /\ ph = "run" /\ inCtx = "no" /\ retd = <<>> /\ ops = <<>> /\ sts = <<>> /\ nh = 1 /\ discW = FALSE
-  /\ g = [ids |-> {}, sids |-> {}, nsub |-> 0] /\ resumeQ = <<>> /\ supp = {} /\ secsAgo = <<>> /\ blockedOn = <<>>
+  /\ g = [ids |-> {}, sids |-> {}, nsub |-> 0, szrej |-> 0, ncancel |-> 0] /\ resumeQ = <<>> /\ supp = {} /\ secsAgo = <<>> /\ blockedOn = <<>>
 
 Next == Reset \/ End \/ Normal \/ Diverge \/ Skip
 
